@@ -23,7 +23,7 @@ class C11(Prop):
             "after every step; final deletion must empty the ledger. (deep) single-child chains of N nested containers with N in "
             "{LIMIT-1, LIMIT, LIMIT+2, LIMIT+3}, LIMIT = CJSON_CIRCULAR_LIMIT. (cyclic) self-loop, 2-cycle and cycle below a healthy "
             "prefix made by writing child directly: NULL, ledger unchanged, source bytes unchanged. (wide) arrays and objects of 10^4..4*10^5 "
-            "items, at the root or nested: same count, values, keys, healthy chain, independent of the source. non-trivial = tree of depth >= 2 with a "
+            "items, at the root or nested: same count, values, keys, healthy chain, independent of the source. (tail view) reference containers that share only the tail of another container's list: the copy is the owned tail. non-trivial = tree of depth >= 2 with a "
             "reference, constant key or string, followed by >= 1 mutating step; deep/cyclic shapes count by shape; distinct by case hash")
     ASSUMPTIONS = ["N = LIMIT+1 containers gets no verdict (the code counts node depth, the statement says 'nested deeper than the limit': "
                    "whether the innermost empty container of LIMIT+1 counts is left open)"]
